@@ -125,6 +125,12 @@ impl<'a> Lexer<'a> {
                 '-' => return TokenKind::Minus,
                 _ => {}
             },
+            // a sign at the very end of the input is punctuation as well
+            None => match c {
+                '+' => return TokenKind::Plus,
+                '-' => return TokenKind::Minus,
+                _ => {}
+            },
             _ => {}
         }
 
